@@ -8,7 +8,7 @@ Import ListNotations.
 From OSQ Require Import Num IR Construct.
 Open Scope string_scope.
 
-Inductive pkind := PQ | PF | PI | PB.      (* QubitLike, Float, SupportsInt, Bit *)
+Inductive pkind := KQ | KF | KI | KB.      (* QubitLike, Float, SupportsInt, Bit *)
 
 (* angle / phase expressions occurring in default_gates.py *)
 Inductive aexpr :=
@@ -33,8 +33,8 @@ Inductive gdef :=
 Record gentry := mkGentry { e_name : string; e_params : list (string * pkind); e_def : gdef }.
 
 Definition bsr0 (ax : Z * Z * Z) (angle phase : aexpr) : gdef := DBsr (mkBsrDef ax angle phase).
-Definition q1 : list (string * pkind) := [("q", PQ)].
-Definition q1f : list (string * pkind) := [("q", PQ); ("theta", PF)].
+Definition q1 : list (string * pkind) := [("q", KQ)].
+Definition q1f : list (string * pkind) := [("q", KQ); ("theta", KF)].
 Definition pi_over (n : Z) : aexpr := EDiv EPi (EInt n).
 Definition mpi_over (n : Z) : aexpr := EDiv (ENeg EPi) (EInt n).
 
@@ -55,11 +55,11 @@ Definition hand_table : list gentry := [
   mkGentry "Rx" q1f (bsr0 (1, 0, 0)%Z ETheta (EInt 0));
   mkGentry "Ry" q1f (bsr0 (0, 1, 0)%Z ETheta (EInt 0));
   mkGentry "Rz" q1f (bsr0 (0, 0, 1)%Z ETheta (EInt 0));
-  mkGentry "CNOT" [("control", PQ); ("target", PQ)] (DCtrlCall "X");
-  mkGentry "CZ" [("control", PQ); ("target", PQ)] (DCtrlCall "Z");
-  mkGentry "CR" [("control", PQ); ("target", PQ); ("theta", PF)]
+  mkGentry "CNOT" [("control", KQ); ("target", KQ)] (DCtrlCall "X");
+  mkGentry "CZ" [("control", KQ); ("target", KQ)] (DCtrlCall "Z");
+  mkGentry "CR" [("control", KQ); ("target", KQ); ("theta", KF)]
     (DCtrlBsr (Some (ENorm ETheta)) (mkBsrDef (0, 0, 1)%Z ELocal (EDiv ELocal (EInt 2))));
-  mkGentry "CRk" [("control", PQ); ("target", PQ); ("k", PI)]
+  mkGentry "CRk" [("control", KQ); ("target", KQ); ("k", KI)]
     (DCtrlBsr (Some (ENorm (EDiv (EMul (EInt 2) EPi) EPow2K))) (mkBsrDef (0, 0, 1)%Z ELocal (EDiv ELocal (EInt 2))))
 ].
 
@@ -71,9 +71,9 @@ Definition hand_aliases : list (string * string) := [("Hadamard", "H"); ("Identi
 
 (* measures / resets: name, parameters, axis *)
 Definition hand_measures : list (string * list (string * pkind) * (Z * Z * Z)) :=
-  [("measure", [("q", PQ); ("b", PB)], (0, 0, 1)%Z); ("measure_z", [("q", PQ); ("b", PB)], (0, 0, 1)%Z)].
+  [("measure", [("q", KQ); ("b", KB)], (0, 0, 1)%Z); ("measure_z", [("q", KQ); ("b", KB)], (0, 0, 1)%Z)].
 Definition hand_measure_set : list string := ["measure_z"; "measure"].
-Definition hand_resets : list (string * list (string * pkind)) := [("reset", [("q", PQ)])].
+Definition hand_resets : list (string * list (string * pkind)) := [("reset", [("q", KQ)])].
 Definition hand_reset_set : list string := ["reset"].
 
 Fixpoint find_entry (name : string) (tbl : list gentry) : option gentry :=
@@ -117,10 +117,10 @@ Section Eval.
   Fixpoint args_match (ps : list (string * pkind)) (args : list (arg T)) : bool :=
     match ps, args with
     | [], [] => true
-    | (_, PQ) :: ps', AQ _ :: args' => args_match ps' args'
-    | (_, PF) :: ps', AF _ :: args' => args_match ps' args'
-    | (_, PI) :: ps', AI _ :: args' => args_match ps' args'
-    | (_, PB) :: ps', AB _ :: args' => args_match ps' args'
+    | (_, KQ) :: ps', AQ _ :: args' => args_match ps' args'
+    | (_, KF) :: ps', AF _ :: args' => args_match ps' args'
+    | (_, KI) :: ps', AI _ :: args' => args_match ps' args'
+    | (_, KB) :: ps', AB _ :: args' => args_match ps' args'
     | _, _ => false
     end.
 
